@@ -3,6 +3,7 @@
 package main
 
 import (
+	"encoding/base64"
 	"bufio"
 	"io"
 	"bytes"
@@ -178,6 +179,16 @@ func setup(x *vs.Exec, c tcase, nprox int) (w *tw.World, open func(src string, i
 			p.CustomDomains = []string{name + ".example.com"}
 			setTransport(&p.Transport, c)
 			proxies = append(proxies, p)
+		case "tcpmuxwild":
+			// two proxies on one wildcard domain: p0 only for the CONNECT user alice, p1 for everybody else
+			p := &v1.TCPMuxProxyConfig{}
+			p.Name, p.Type, p.LocalIP, p.LocalPort, p.Multiplexer = name, "tcpmux", "127.0.0.1", 8000+i, "httpconnect"
+			p.CustomDomains = []string{"*.corp.example.com"}
+			if i == 0 {
+				p.RouteByHTTPUser = "alice"
+			}
+			setTransport(&p.Transport, c)
+			proxies = append(proxies, p)
 		case "https":
 			p := &v1.HTTPSProxyConfig{}
 			p.Name, p.Type, p.LocalIP, p.LocalPort = name, "https", "127.0.0.1", 8000+i
@@ -213,6 +224,13 @@ func setup(x *vs.Exec, c tcase, nprox int) (w *tw.World, open func(src string, i
 			return u, nil, ""
 		case "tcpmux":
 			u, e := w.ConnectMux(src, name+".example.com", "")
+			return u, nil, e
+		case "tcpmuxwild":
+			hdr := ""
+			if i == 0 {
+				hdr = "Proxy-Authorization: Basic " + base64.StdEncoding.EncodeToString([]byte("alice:x")) + "\r\n"
+			}
+			u, e := w.ConnectMux(src, fmt.Sprintf("h%d.corp.example.com", i), hdr)
 			return u, nil, e
 		case "https":
 			hello := clientHello(w, name+".example.com")
@@ -614,8 +632,9 @@ func main() {
 	}
 	c.Note("lattice_cases", len(names))
 	b := drv.Pick(c, 1, 2)
-	for i, k := range kinds {
-		c.ExploreBoth("cross/"+k, b, 1.0/float64(len(kinds)-i))
+	ckinds := append(append([]string{}, kinds...), "tcpmuxwild")
+	for i, k := range ckinds {
+		c.ExploreBoth("cross/"+k, b, 1.0/float64(len(ckinds)-i))
 	}
 	c.Finish()
 }
